@@ -55,7 +55,7 @@ type c32Entry struct {
 	Name    string             `json:"name"`    // archive.tgz | user/<name>.tgz
 	Init    map[string]c32Tree `json:"init"`    // nil: parent directory missing
 	Archive map[string]c32Tree `json:"archive"` // top-level directories in the archive
-	Corrupt string             `json:"corrupt"` // "" | digest | tar
+	Corrupt string             `json:"corrupt"` // "" | digest | tar | missing | crc
 	CutAt   int                `json:"cut_at"`  // tar: percentage of the gzip stream that is kept
 }
 
@@ -64,6 +64,8 @@ type c32Restore struct {
 	Cur     int        `json:"cur"` // 0: unset
 	Entries []c32Entry `json:"entries"`
 	After   string     `json:"after"` // none | cleanup | revert
+	// usernames handed to Reader.Check (nil: all entries are checked)
+	CheckUsers []string `json:"check_users"`
 }
 
 type c32In struct {
@@ -185,22 +187,28 @@ func c32ExecImport(in *c32Import) vh.Out {
 		if hdr.Typeflag == tar.TypeReg {
 			tw.Write([]byte(body))
 		}
-		members = append(members, fmt.Sprintf("{| m_name := %s; m_kind := %s |}", vh.CoqBytes(m.Name), kind))
+		if hdr.Typeflag != tar.TypeReg {
+			body = ""
+		}
+		members = append(members, fmt.Sprintf("{| m_name := %s; m_kind := %s; m_body := %s |}", vh.CoqBytes(m.Name), kind, vh.CoqBytes(body)))
 	}
 	tw.Flush()
 	stream := buf.Bytes()
 	if in.GarbageAfter >= 0 && in.GarbageAfter <= len(in.Members) {
 		stream = append(append([]byte{}, stream...), bytes.Repeat([]byte{0xff}, 512)...)
-		members = append(members, "{| m_name := []; m_kind := MTarErr |}")
+		members = append(members, "{| m_name := []; m_kind := MTarErr; m_body := [] |}")
 	} else {
 		tw.Close()
 		stream = buf.Bytes()
 	}
 
 	var written [][]string
+	var contents []string
 	oldOpen := backendOpen
 	backendOpen = func(fn string, setID uint64) (*Reader, error) {
 		written = append(written, c32Comps(fn))
+		data, _ := os.ReadFile(fn)
+		contents = append(contents, string(data))
 		f, err := os.Open(fn)
 		if err != nil {
 			return nil, err
@@ -213,17 +221,28 @@ func c32ExecImport(in *c32Import) vh.Out {
 	after := c32Walk(root, S)
 
 	var ws []string
-	for _, w := range written {
-		ws = append(ws, c32CoqPath(w))
+	for i, w := range written {
+		ws = append(ws, "("+c32CoqPath(w)+", "+vh.CoqBytes(contents[i])+")")
 	}
 	sdir := c32Comps(S)
-	coq := fmt.Sprintf("(ImportCase %s %s [%s] %s %s %s %s)", c32CoqPath(sdir), vh.CoqBytes(fmt.Sprint(in.ID)),
-		c32CoqPath(append(append([]string{}, sdir...), sub)), vh.CoqList(members), vh.CoqList(ws), vh.CoqBool(ierr == nil), vh.CoqBool(before == after))
+	files := fmt.Sprintf("[(%s, %s); (%s, %s)]",
+		c32CoqPath(append(append([]string{}, sdir...), fmt.Sprintf("%d_old.zip", in.ID))), vh.CoqBytes("old"),
+		c32CoqPath(append(append([]string{}, sdir...), "9_other_1.0_1.zip")), vh.CoqBytes("other"))
+	coq := fmt.Sprintf("(ImportCase %s %s [%s] %s %s %s %s %s)", c32CoqPath(sdir), vh.CoqBytes(fmt.Sprint(in.ID)),
+		c32CoqPath(append(append([]string{}, sdir...), sub)), files, vh.CoqList(members), vh.CoqList(ws), vh.CoqBool(ierr == nil), vh.CoqBool(before == after))
 	var rel []string
 	for _, w := range written {
 		rel = append(rel, strings.TrimPrefix("/"+strings.Join(w, "/"), S))
 	}
 	tags := []string{"import", fmt.Sprintf("import-written-%d", len(written))}
+	seenPath := map[string]bool{}
+	for i, r := range rel {
+		if seenPath[r] || (strings.HasSuffix(r, "_old.zip") && i >= 0) {
+			tags = append(tags, "import-overwrite")
+			break
+		}
+		seenPath[r] = true
+	}
 	if ierr == nil {
 		tags = append(tags, "import-ok")
 	} else {
@@ -232,7 +251,7 @@ func c32ExecImport(in *c32Import) vh.Out {
 	if before != after {
 		tags = append(tags, "OUTSIDE-CHANGED")
 	}
-	return vh.Out{Observed: map[string]interface{}{"ok": ierr == nil, "written": rel, "outside_unchanged": before == after},
+	return vh.Out{Observed: map[string]interface{}{"ok": ierr == nil, "written": rel, "contents": contents, "outside_unchanged": before == after},
 		Coq: coq, NonTrivial: len(written) > 0 || (ierr != nil && len(in.Members) > 0), Tags: tags}
 }
 
@@ -374,6 +393,9 @@ func c32ExecRestore(in *c32Restore) vh.Out {
 	hashes := map[string]string{}
 	var parents []string
 	var esCoq []string
+	var zsCoq []string
+	var crcNames []string
+	blobs := &c32Interner{ids: map[string]uint64{}}
 	for k, e := range in.Entries {
 		parent := filepath.Join(dirs.SnapDataDir, "foo")
 		if e.Name != "archive.tgz" {
@@ -413,6 +435,9 @@ func c32ExecRestore(in *c32Restore) vh.Out {
 		data := c32Tgz(e.Archive)
 		extractOK, digestOK := true, true
 		switch e.Corrupt {
+		case "missing", "crc":
+			extractOK = false
+			ext = nil
 		case "tar":
 			cut := len(data) * e.CutAt / 100
 			if cut >= len(data)-8 {
@@ -430,8 +455,24 @@ func c32ExecRestore(in *c32Restore) vh.Out {
 			hashes[e.Name] = c32Sha3(append([]byte("x"), data...))
 			digestOK = false
 		}
-		w, _ := zw.CreateHeader(&zip.FileHeader{Name: e.Name, Method: zip.Store})
-		w.Write(data)
+		if e.Corrupt != "missing" {
+			w, _ := zw.CreateHeader(&zip.FileHeader{Name: e.Name, Method: zip.Store})
+			w.Write(data)
+		}
+		if e.Corrupt == "crc" {
+			crcNames = append(crcNames, e.Name)
+		}
+		zuser := "None"
+		if e.Name != "archive.tgz" {
+			zuser = "(Some " + vh.CoqBytes(strings.TrimSuffix(strings.TrimPrefix(e.Name, "user/"), ".tgz")) + ")"
+		}
+		recorded := blobs.id(string(data))
+		if e.Corrupt == "digest" {
+			recorded = blobs.id("x" + string(data))
+		}
+		zsCoq = append(zsCoq, fmt.Sprintf("{| z_user := %s; z_present := %s; z_read_ok := %s; z_reported := %s; z_read := %s; z_actual := %s; z_recorded := %s |}",
+			zuser, vh.CoqBool(e.Corrupt != "missing"), vh.CoqBool(e.Corrupt != "crc"), vh.CoqN(uint64(len(data))), vh.CoqN(uint64(len(data))),
+			vh.CoqN(blobs.id(string(data))), vh.CoqN(recorded)))
 		esCoq = append(esCoq, fmt.Sprintf("(%s, {| e_rev := %s; e_extract_ok := %s; e_extracted := %s; e_digest_ok := %s |})",
 			init, vh.CoqN(names.real(revName)), vh.CoqBool(extractOK), vh.CoqList(ext), vh.CoqBool(digestOK)))
 	}
@@ -444,12 +485,30 @@ func c32ExecRestore(in *c32Restore) vh.Out {
 	zw.Close()
 	zf.Close()
 	os.RemoveAll(scratch)
+	if len(crcNames) > 0 {
+		// flip one byte of the stored member data: the zip reader reports a checksum error at the end of the member
+		raw, _ := os.ReadFile(zipPath)
+		zr, err := zip.NewReader(bytes.NewReader(raw), int64(len(raw)))
+		if err != nil {
+			panic(err)
+		}
+		for _, f := range zr.File {
+			for _, n := range crcNames {
+				if f.Name == n {
+					off, _ := f.DataOffset()
+					raw[off+int64(f.UncompressedSize64)/2] ^= 0x55
+				}
+			}
+		}
+		os.WriteFile(zipPath, raw, 0600)
+	}
 
 	r, err := Open(zipPath, 5)
 	if err != nil {
 		panic(fmt.Sprintf("cannot open generated snapshot: %v", err))
 	}
 	defer r.Close()
+	cerr := r.Check(context.Background(), append([]string{}, in.CheckUsers...))
 	curRev := snap.R(in.Cur)
 	rs, rerr := r.Restore(context.Background(), curRev, nil, func(string, ...interface{}) {}, nil)
 	if rerr == nil {
@@ -468,7 +527,12 @@ func c32ExecRestore(in *c32Restore) vh.Out {
 		obsFinal = append(obsFinal, o)
 	}
 	after := map[string]string{"none": "ANone", "cleanup": "ACleanup", "revert": "ARevert"}[in.After]
-	coq := fmt.Sprintf("(RestoreCase %s %s %s %s %s)", cur, vh.CoqList(esCoq), after, vh.CoqBool(rerr == nil), vh.CoqList(finals))
+	var us []string
+	for _, u := range in.CheckUsers {
+		us = append(us, vh.CoqBytes(u))
+	}
+	coq := fmt.Sprintf("(RestoreCase %s %s %s %s %s %s %s %s)", cur, vh.CoqList(esCoq), after, vh.CoqBool(rerr == nil), vh.CoqList(finals),
+		vh.CoqList(us), vh.CoqList(zsCoq), vh.CoqBool(cerr == nil))
 	tags := []string{"restore", "after-" + in.After, fmt.Sprintf("entries-%d", len(in.Entries))}
 	corrupt := false
 	for _, e := range in.Entries {
@@ -480,6 +544,14 @@ func c32ExecRestore(in *c32Restore) vh.Out {
 			tags = append(tags, "parent-missing")
 		}
 	}
+	if cerr == nil {
+		tags = append(tags, "check-ok")
+	} else {
+		tags = append(tags, "check-err")
+	}
+	if len(in.CheckUsers) > 0 {
+		tags = append(tags, "check-with-users")
+	}
 	if rerr == nil {
 		tags = append(tags, "restore-ok")
 	} else {
@@ -488,7 +560,7 @@ func c32ExecRestore(in *c32Restore) vh.Out {
 	if in.Cur != 0 && in.Cur != in.SnapRev {
 		tags = append(tags, "other-current-revision")
 	}
-	return vh.Out{Observed: map[string]interface{}{"ok": rerr == nil, "final": obsFinal}, Coq: coq,
+	return vh.Out{Observed: map[string]interface{}{"ok": rerr == nil, "final": obsFinal, "check_ok": cerr == nil}, Coq: coq,
 		NonTrivial: corrupt || len(in.Entries) > 1 || in.After == "revert", Tags: tags}
 }
 
@@ -511,6 +583,9 @@ func c32GenName(r *vh.Rand) string {
 
 func c32GenImport(r *vh.Rand) *c32Import {
 	in := &c32Import{ID: uint64(r.Range(1, 30)), GarbageAfter: -1}
+	if in.ID == 9 {
+		in.ID = 19
+	}
 	n := r.Range(1, 5)
 	for i := 0; i < n; i++ {
 		m := c32Member{Name: c32GenName(r), Kind: "file", Body: r.Str("xyz", 0, 5)}
@@ -523,6 +598,14 @@ func c32GenImport(r *vh.Rand) *c32Import {
 			m.Name = "content.json"
 		case 3, 4:
 			m.Name = "export.json"
+		}
+		if len(in.Members) > 0 && r.Chance(1, 4) {
+			// duplicate target: same name (or same rest under another old set id), another body
+			prev := in.Members[r.Intn(len(in.Members))]
+			m.Name, m.Kind = prev.Name, "file"
+			if i := strings.Index(prev.Name, "_"); i >= 0 && r.Bool() {
+				m.Name = "77" + prev.Name[i:]
+			}
 		}
 		in.Members = append(in.Members, m)
 	}
@@ -573,13 +656,18 @@ func c32GenRestore(r *vh.Rand) *c32Restore {
 			e.Archive[r.Pick([]string{"extra", fmt.Sprint(in.Cur), "9"})] = c32GenTree(r)
 			delete(e.Archive, "0")
 		}
-		switch r.Intn(8) {
+		switch r.Intn(10) {
 		case 0:
 			e.Corrupt = "digest"
 		case 1:
 			e.Corrupt, e.CutAt = "tar", r.Range(0, 95)
+		case 2:
+			e.Corrupt = r.Pick([]string{"missing", "crc"})
 		}
 		in.Entries = append(in.Entries, e)
+	}
+	if r.Chance(1, 3) {
+		in.CheckUsers = [][]string{{"u1"}, {"u2"}, {"u1", "u2"}, {"nobody"}}[r.Intn(4)]
 	}
 	return in
 }
@@ -594,17 +682,20 @@ func c32Gen(r *vh.Rand, tier string, n int) []c32In {
 		"1_d/../../x", "1_/../../x", "1_d/../../snapshots_x", "1_d/../../../x", "1_d/../../../../../etc/passwd", "1_d/../../state.json", "a/../1_d/../../x", "1_d/x/../../../x"} {
 		ins = append(ins, c32In{Import: &c32Import{ID: 7, GarbageAfter: -1, Members: []c32Member{{Name: nm, Kind: "file", Body: "x"}, {Name: "export.json", Kind: "file"}}}})
 	}
+	ins = append(ins,
+		c32In{Import: &c32Import{ID: 7, GarbageAfter: -1, Members: []c32Member{{Name: "1_a.zip", Kind: "file", Body: "xyzxyz"}, {Name: "2_a.zip", Kind: "file", Body: "zz"}, {Name: "export.json", Kind: "file"}}}},
+		c32In{Import: &c32Import{ID: 7, GarbageAfter: -1, Members: []c32Member{{Name: "1_a.zip", Kind: "file", Body: "z"}, {Name: "1_a.zip", Kind: "file", Body: "xyzxyz"}, {Name: "1_old.zip", Kind: "file", Body: "y"}, {Name: "export.json", Kind: "file"}}}})
 	// fixed restore corner cases: two entries, the second corrupted, pre-existing data everywhere
 	full := func() map[string]c32Tree {
 		return map[string]c32Tree{"common": {"a": "old"}, "2": {"b": "old"}, "other": {"c": "keep"}}
 	}
 	arch := func() map[string]c32Tree { return map[string]c32Tree{"common": {"a": "new"}, "2": {"b": "new", "s/t": "n"}} }
-	for _, c := range []string{"", "digest", "tar"} {
+	for _, c := range []string{"", "digest", "tar", "missing", "crc"} {
 		for _, after := range []string{"none", "cleanup", "revert"} {
 			ins = append(ins, c32In{Restore: &c32Restore{SnapRev: 2, Cur: 2, After: after, Entries: []c32Entry{
 				{Name: "archive.tgz", Init: full(), Archive: arch()},
 				{Name: "user/u1.tgz", Init: full(), Archive: arch(), Corrupt: c, CutAt: 60},
-				{Name: "user/u2.tgz", Init: nil, Archive: arch()}}}})
+				{Name: "user/u2.tgz", Init: nil, Archive: arch()}}, CheckUsers: map[string][]string{"none": nil, "cleanup": {"u2"}, "revert": {"u1"}}[after]}})
 		}
 	}
 	for i := 0; i < n; i++ {
